@@ -260,12 +260,18 @@ func (sc *scenario) call(w *mc.World, ms *mons, ps procSpec, s step, prop string
 			return "ok"
 		case "read":
 			return "ok"
+		case "reload":
+			return hx.ErrString(st.VerifReload())
 		}
 		return "?"
 	}
 	fn := inner
 	if ps.Reader {
 		fn = func(p *mc.Proc) string {
+			startIdx := -1
+			if ms.snap != nil {
+				startIdx = ms.snap.CurrentIndex()
+			}
 			res := inner(p)
 			st := handle(p)
 			if st == nil || ms.snap == nil {
@@ -276,6 +282,9 @@ func (sc *scenario) call(w *mc.World, ms *mons, ps procSpec, s step, prop string
 			names := st.VerifNames()
 			view := hx.Joined(refs, logs)
 			ms.snap.Observed(w, p.ID, lbl+"="+resClass(res), names, view, err)
+			if err == nil && res == "ok" && (s.Kind == "reload" || s.Kind == "open" || s.Kind == "add") {
+				ms.snap.NotOlderThan(w, p.ID, lbl, names, startIdx)
+			}
 			return res + fmt.Sprintf("|view:%x", fnv(view))
 		}
 	}
